@@ -169,11 +169,8 @@ class DecimalConverter(NullConverter):
 
     @classmethod
     def _decimal_to_xml(cls, py_value):
-        xml_value = str(py_value)
-        if 'E' in xml_value or 'e' in xml_value:
-            # no exp form allowed in xml
-            return cls._float_to_xml(float(py_value))
-        return xml_value
+        # no exp form allowed in xml; positional notation is exact (no detour via float)
+        return format(py_value, 'f')
 
     @classmethod
     def to_xml(cls, py_value):
@@ -189,7 +186,8 @@ class DecimalConverter(NullConverter):
             # All ·minimally conforming· processors ·must· support decimal numbers with a minimum of
             # 18 decimal digits (i.e., with a ·totalDigits· of 18).
             head, tail = xml_value.split('.')
-            tail = tail[:18 - len(head)]
+            # sign and a lone leading zero are no digits
+            tail = tail[:18 - len(head.lstrip('-').lstrip('0'))]
             if tail:
                 xml_value = f'{head}.{tail}'
             else:
